@@ -24,11 +24,12 @@ TIERS = {
                              defs=["MCLazyDef_quick.cfg", "MCLazyDef_quick2.cfg", "MCLazyDef_thorough.cfg"])},
     "C14": {"quick": dict(runs=[dict(fam="pool", iters=120, hist=60, shards=4)],
                           mc=[("MCLazyPool", "MCLazyPool_seq_max1.cfg"), ("MCLazyPool", "MCLazyPool_seq_zero_max2.cfg")],
-                          expect_violation=[("MCLazyPool", "MCLazyPool_asfound.cfg", "NoPanic"), ("MCLazyPool", "MCLazyPool_asfound_filter.cfg", "NoPanic")]),
+                          expect_violation=[("MCLazyPool", "MCLazyPool_asfound.cfg", "NoPanic"), ("MCLazyPool", "MCLazyPool_asfound_filter.cfg", "NoPanic"),
+                                            ("MCLazyPool", "MCLazyPool_staleclose.cfg", "Exclusive")]),
             "thorough": dict(runs=[dict(fam="pool", iters=3000, hist=80, shards=16)],
                              mc=[("MCLazyPool", c) for c in SEQ_CFGS],
                              expect_violation=[("MCLazyPool", "MCLazyPool_asfound.cfg", "NoPanic"), ("MCLazyPool", "MCLazyPool_asfound_filter.cfg", "NoPanic"),
-                                               ("MCLazyPool", "MCLazyPool_notrunc.cfg", "Isolation")])},
+                                               ("MCLazyPool", "MCLazyPool_notrunc.cfg", "Isolation"), ("MCLazyPool", "MCLazyPool_staleclose.cfg", "Exclusive")])},
     "C15": {"quick": dict(runs=[dict(fam="conc", iters=150, g=8, procs=4, race=True, shards=8),
                                 dict(fam="conc", iters=30, g=64, procs=16, race=True, shards=8),
                                 dict(fam="own", iters=150, g=8, procs=2, shards=8)],
